@@ -2,6 +2,7 @@ import Orx.KSRun
 import Orx.IW.Outs
 import Orx.IW.NoLoss
 import Orx.Props.C07
+import Orx.GenThms.Surface
 /-! # C01 Exactly-once delivery under concurrent pulling -/
 namespace Orx.Props.C01
 open Orx Orx.KS
@@ -100,5 +101,19 @@ theorem iter_handover_is_race_free (s : IW.Script) (ps : Nat → List IW.Req) (h
                        ((IW.hrunS C07.srcOrds s σ (IW.hinit ps)).core.th t).pc = .ins r b acc) :
     (IW.hrunS C07.srcOrds s σ (IW.hinit ps)).last.le ((IW.hrunS C07.srcOrds s σ (IW.hinit ps)).clk t) :=
   C07.hb_chain_under_stale_reads s ps hok σ hW t huse
+
+section Surface
+open Orx.GenThms.Surface
+
+/-- **every kind's single pull is the trait's default `fetch_one`** (one reservation of one position, then `get`): no implementor of
+`AtomicIter` overrides it, and there is no implementor besides the seven modelled ones -/
+theorem source_single_pull_is_the_trait_default :
+    (implementors.all fun x => (fnsOf "AtomicIter" x).length == 1 &&
+      (fnsOf "AtomicIter" x).all (sameSet requiredAtomicIter)) = true ∧
+    sameSet (implsOf "AtomicIter") implementors = true ∧
+    fnsOf "trait" "AtomicIter" = [["counter", "progress_and_get_begin_idx", "get", "fetch_one", "fetch_n", "early_exit"]] :=
+  Orx.GenThms.Surface.atomic_iter_defaults_are_not_overridden
+
+end Surface
 
 end Orx.Props.C01
